@@ -60,9 +60,13 @@ type EditSpec struct {
 
 // Conc is the concurrent phase run after the sequential history: every worker is a goroutine that waits on a
 // common barrier and then issues its jobs (same Op vocabulary, no clear).
+//
+// Gate: the first renders of the goroutines meet INSIDE the render (see gate.go), so that all of them are in flight
+// at the same moment.
 type Conc struct {
 	Procs   int    `json:"procs"`
 	Workers [][]Op `json:"workers"`
+	Gate    bool   `json:"gate,omitempty"`
 }
 
 type Case struct {
